@@ -25,12 +25,13 @@ def _configs():
         cfgs["k%d" % m] = feats
     cfgs["k9"] = WIRE_FEATURES + ["arbitrary"]
     cfgs["k8"] = ["arbitrary"]     # the fuzzing feature alone (feature-dependent constants take their default values)
+    cfgs["kL"] = ["log-all"]       # logging compiled in: the arguments of the delog macros exist only here (used by the no-panic clauses)
     return cfgs
 
 CONFIGS = _configs()           # k0..k7 = the 8 wire configurations, k9 = all + arbitrary (+std)
 WIRE_CONFIGS = ["k%d" % m for m in range(8)]
 ALL_CONFIGS = WIRE_CONFIGS + ["k9"]
-EXTRACT_CONFIGS = ALL_CONFIGS + ["k8"]
+EXTRACT_CONFIGS = ALL_CONFIGS + ["k8", "kL"]
 
 # generic roots that need an explicit instantiation (see driver/src/mono.rs)
 ROOTS = ";".join([
